@@ -168,6 +168,23 @@ Definition tree_glwe_external_product (fam n : Z) (res a ggsw : infos) : tree :=
                 else Scoped (t_glwe_external_product_internal fam n a ggsw)))
        (Loop (nat_of (i_rank res + 1)) (t_big_normalize fam n)))).
 
+(* keyswitching/gglwe.rs: gglwe_keyswitch_default: glwe_keyswitch on every (row, col) of the matrix, same scratch *)
+Definition tree_gglwe_keyswitch (fam n : Z) (res a key : infos) : tree :=
+  Seq (Need (gglwe_keyswitch_tmp_bytes fam n res a key))
+      (Loop (nat_of (i_dnum res * i_rank_in res)) (Scoped (tree_glwe_keyswitch fam n res a key))).
+(* external_product/gglwe.rs, ggsw.rs: glwe_external_product on every (row, col) *)
+Definition tree_gglwe_external_product (fam n : Z) (res a ggsw : infos) : tree :=
+  Seq (Need (gglwe_external_product_tmp_bytes fam n res a ggsw))
+      (Loop (nat_of (i_dnum res * i_rank_in res)) (Scoped (tree_glwe_external_product fam n res a ggsw))).
+Definition tree_ggsw_external_product (fam n : Z) (res a ggsw : infos) : tree :=
+  Seq (Need (ggsw_external_product_tmp_bytes fam n res a ggsw))
+      (Loop (nat_of (Z.min (i_dnum res) (i_dnum a) * (i_rank res + 1))) (Scoped (tree_glwe_external_product fam n res a ggsw))).
+(* layouts/prepared/gglwe.rs, ggsw.rs: gglwe_prepare / ggsw_prepare = vmp_prepare *)
+Definition tree_gglwe_prepare (fam n : Z) (key : infos) : tree :=
+  Seq (Need (gglwe_prepare_tmp_bytes fam n key)) (Scoped (t_vmp_prepare fam n)).
+Definition tree_ggsw_prepare (fam n : Z) (ggsw : infos) : tree :=
+  Seq (Need (ggsw_prepare_tmp_bytes fam n ggsw)) (Scoped (t_vmp_prepare fam n)).
+
 (* automorphism/glwe_ct.rs: glwe_automorphism_default = glwe_keyswitch, then vec_znx_automorphism_assign per column *)
 Definition tree_glwe_automorphism (fam n : Z) (res a key : infos) : tree :=
   Seq (Need (glwe_automorphism_tmp_bytes fam n res a key))
